@@ -3,7 +3,7 @@ import EaselModel.Buffer.Model
 import EaselModel.Buffer.SpecHist
 /-! Line-protocol driver for the C05 model (esl_buffer.c).
 
-  open mode=<string|stream|pipe|file|allfile|mmap> ps=<pagesize> hex=<input bytes>
+  open mode=<string|stream|pipe|file|allfile|mmap|auto|open> ps=<pagesize> hex=<input bytes>
   getline | fetchline | fetchlinestr | gettoken sep=<hex> | fetchtoken sep=<hex> | fetchtokenstr sep=<hex>
   read k=<n> | get | set k=<nused> | getoffset | setoffset o=<n> | setanchor o=<n> | setstable o=<n> | raise o=<n>
 
@@ -19,7 +19,9 @@ def stName : St → String
 def parseMode (s : String) : Option Mode :=
   if s == "string" then some .string else if s == "stream" then some .stream
   else if s == "pipe" then some .cmdpipe else if s == "file" then some .file
-  else if s == "allfile" then some .allfile else if s == "mmap" then some .mmap else none
+  else if s == "allfile" then some .allfile else if s == "mmap" then some .mmap
+  -- natural paths of esl_buffer_OpenFile / esl_buffer_Open on a file of at most eslBUFFER_SLURPSIZE bytes: slurped
+  else if s == "auto" || s == "open" then some .allfile else none
 
 def parseOp (ws : List String) : Option Op :=
   match ws.head? with
